@@ -152,6 +152,8 @@ func AllowPanic() { noPanic = false }
 // KnownPanic attributes panics raised at positions containing `where` to finding id.
 func KnownPanic(id, where string) { knownPanics = append(knownPanics, [2]string{id, where}) }
 
+// ExactCRC selects the exact GF(2)-linear CRC evaluation (true) or the congruent uninterpreted model (false, default).
+func ExactCRC(on bool)     {}
 func Unwind(n int)        {}
 func AllocCap(n int)      {}
 func AllocLimit(n uint64) {}
